@@ -6,6 +6,7 @@ import (
 	"fmt"
 	"go/types"
 	"os"
+	"strconv"
 	"strings"
 
 	"golang.org/x/tools/go/ssa"
@@ -74,6 +75,10 @@ func (b *B) Eq(rule, construct, where string, got *RF, env *SpecEnv, spec string
 		if got.Equal(want) || b.X.S.BoolEquiv(got, want) || b.X.EquivByCases(got, want, 0) {
 			b.R.OK(rule, construct, where, "≡ "+spec)
 			ok = true
+		} else if g2, w2 := b.X.ExpandCalls(got), b.X.ExpandCalls(want); !(g2.Equal(got) && w2.Equal(want)) && (g2.Equal(w2) || b.X.EquivByCases(g2, w2, 0)) {
+			// helpers kept as applications replaced by their gated result
+			b.R.OK(rule, construct, where, "≡ "+spec)
+			ok = true
 		} else {
 			b.R.Fail(rule, construct, where, fmt.Sprintf("code computes %s ; the stated formula is %s = %s", clip(got.String(), 600), spec, clip(want.String(), 600)))
 		}
@@ -90,6 +95,13 @@ func (b *B) EqRF(rule, construct, where string, got, want *RF, what string) bool
 	if got.Equal(want) || b.X.EquivByCases(got, want, 0) {
 		b.R.OK(rule, construct, where, what)
 		return true
+	}
+	// second attempt: helpers kept as applications replaced by their gated result
+	if g2, w2 := b.X.ExpandCalls(got), b.X.ExpandCalls(want); !(g2.Equal(got) && w2.Equal(want)) {
+		if g2.Equal(w2) || b.X.EquivByCases(g2, w2, 0) {
+			b.R.OK(rule, construct, where, what)
+			return true
+		}
 	}
 	b.R.Fail(rule, construct, where, fmt.Sprintf("%s: got %s ; want %s", what, clip(got.String(), 600), clip(want.String(), 600)))
 	return false
@@ -1061,11 +1073,19 @@ func (x *Extractor) EquivByCases(a, b *RF, depth int) bool {
 	la := leaf.SingleAtom()
 	if la != nil && isCmpName(la.Name) {
 		d := la.Args[0].Sub(la.Args[1])
+		if c, isC := d.IsConst(); isC {
+			// decided outright
+			as := []Assumption{{Cond: leaf, True: cmpTruth(la.Name, c.Sign())}}
+			return x.EquivByCases(x.SimplifyUnder(a, as), x.SimplifyUnder(b, as), depth+1)
+		}
 		regions := []int{-1, 0, 1}
 		if !x.S.Integral(d) {
 			regions = append(regions, 2) // unordered (NaN)
 		}
 		for _, reg := range regions {
+			if os.Getenv("GMSA_TRACE_EQ") == "2" {
+				fmt.Fprintf(os.Stderr, "EQ-SPLIT depth=%d region=%d of d=%s\n", depth, reg, clip(d.String(), 300))
+			}
 			as := x.regionAssumptions([]*RF{a, b}, d, reg)
 			a2, b2 := x.SimplifyUnder(a, as), x.SimplifyUnder(b, as)
 			if reg == 0 {
@@ -1635,4 +1655,75 @@ func (fc *FC) LitFieldAny(typeName, field string) *RF {
 		}
 	}
 	panic(first)
+}
+
+// ExpandCalls rewrites applications of module functions that were kept as
+// atoms (several returns, pointer results) by the gated value of their
+// result over all their returns, their parameters bound to the arguments —
+// used as a second attempt when a comparison fails on such an atom.
+func (x *Extractor) ExpandCalls(r *RF) *RF {
+	return r.Rewrite(func(at *Atom, args []*RF) *RF {
+		name := at.Name
+		idx := -1
+		if i := strings.LastIndex(name, "#"); i > 0 {
+			if n, err := strconv.Atoi(name[i+1:]); err == nil {
+				name, idx = name[:i], n
+			}
+		}
+		f := x.W.Fn(name)
+		if f == nil || f.Blocks == nil || len(args) != len(f.Params) || x.depth[f] > 0 || x.NoInline[name] {
+			return nil
+		}
+		if !x.pureForInline(f) {
+			return nil
+		}
+		x.depth[f]++
+		defer func() { x.depth[f]-- }()
+		bind := map[*ssa.Parameter]*RF{}
+		for i, p := range f.Params {
+			bind[p] = args[i]
+		}
+		sub := x.newFC(f, bind, nil)
+		sub.bindArgs = args
+		v := sub.gatedReturns(f.Blocks[0], 0, nil)
+		if v == nil || x.S.isBottom(v) {
+			return nil
+		}
+		if ta := v.SingleAtom(); ta != nil && ta.Name == "tuple" {
+			if idx < 0 || idx >= len(ta.Args) {
+				return nil
+			}
+			return ta.Args[idx]
+		}
+		if idx > 0 {
+			return nil
+		}
+		return v
+	})
+}
+
+// EqAt: got ≡ want given the branch conditions known at instruction `at`
+// (equalities among them are substituted, e.g. len(xs)==len(ys) after the
+// length-mismatch panic).
+func (b *B) EqAt(rule, construct, where string, fc *FC, at ssa.Instruction, got, want *RF, what string) bool {
+	var as []Assumption
+	as = append(as, fc.Assume...)
+	for _, f := range fc.Ctx.Facts(at.Block()) {
+		as = append(as, Assumption{Cond: fc.Val(f.Cond), True: f.Val})
+	}
+	as = expandAssumptions(as)
+	g, w := b.X.SimplifyUnder(got, as), b.X.SimplifyUnder(want, as)
+	for _, a := range as {
+		if a.Cond == nil {
+			continue
+		}
+		ca := a.Cond.SingleAtom()
+		if ca == nil || !(ca.Name == "cmp==" && a.True || ca.Name == "cmp!=" && !a.True) {
+			continue
+		}
+		if sub := solveZero(b.X.S, ca.Args[0].Sub(ca.Args[1])); sub != nil {
+			g, w = g.Subst(sub), w.Subst(sub)
+		}
+	}
+	return b.EqRF(rule, construct, where, g, w, what)
 }
